@@ -20,7 +20,7 @@ ID = "C07"
 RULE = (
     "Generated class models (Evt/Jet/Trk with methods val/jets/trks/obj and a func_adl_callable function fn): every "
     "signature has 0-4 positional-or-keyword parameters with any trailing subset defaulted (str/int/float/bool defaults, "
-    "incl. negative numbers and quotes); the method name val exists on all three classes with different signatures and is, per case, optionally renamed to the name of a stream member (value, Select, Where, MetaData, First, Count, item_type, query_ast...). Call "
+    "incl. negative numbers and quotes); the method name val exists on all three classes with different signatures and is, per case, optionally renamed to the name of a stream member (value, Select, Where, MetaData, First, Count, item_type, query_ast...); methods may be declared @staticmethod or @classmethod. Call "
     "shapes: k positional + any subset of the remaining parameters by keyword in any order + omitted defaults, plus shapes "
     "missing a required parameter. Placement: depth 0-3 through typed method chains, Select/Where/SelectMany/First/Count on "
     "typed collections, dictionary fields carried to a next stage, call sites as arguments of other call sites; lambda "
@@ -157,7 +157,9 @@ def _case(draw, maxdepth):
         p2, v2 = draw(st.sampled_from(names)), draw(st.sampled_from(names))
         inner = draw(_val(v2, "Jet", depth, model, names, miss))
         stages = [["Select", p, ["site", ["var", p], "Evt", "jets", pos, kw]], ["Select", p2, ["op", "Select", ["var", p2], v2, inner]]]
-    return {"model": model, "stages": stages, "alias": draw(st.sampled_from(ALIASES))}
+    # some methods are declared @staticmethod / @classmethod (python accepts obj.m(...) for both): no receiver parameter to skip
+    kinds = {k: draw(st.sampled_from(["plain"] * 8 + ["static", "static", "class", "recv:this", "recv:me"])) for k in model if k != "fn"}
+    return {"model": model, "stages": stages, "alias": draw(st.sampled_from(ALIASES)), "kinds": {k: v for k, v in kinds.items() if v != "plain"}}
 
 
 def strategy(tier):
@@ -215,7 +217,8 @@ def exhaustive(tier):
 ALIASES = ["val", "val", "value", "Select", "Where", "MetaData", "SelectMany", "item_type", "First", "Count", "query_ast"]
 
 
-def build_model(model, alias="val"):
+def build_model(model, alias="val", kinds=None):
+    kinds = kinds or {}
     ns = {"Iterable": Iterable, "_alias": alias}
     src = []
     ret = {"Evt.val": "float", "Evt.jets": "Iterable[Jet]", "Jet.val": "float", "Jet.trks": "Iterable[Trk]", "Jet.obj": "Trk", "Trk.val": "float"}
@@ -239,7 +242,14 @@ def build_model(model, alias="val"):
                 if meth == "val":
                     meth = alias
                 ps = params(sig, key.replace(".", "_"))
-                src.append(f"    def {meth}(self{', ' + ps if ps else ''}) -> '{ret[key]}': ...")
+                kind = kinds.get(key, "plain")
+                if kind == "static":
+                    src.append(f"    @staticmethod\n    def {meth}({ps}) -> '{ret[key]}': ...")
+                elif kind == "class":
+                    src.append(f"    @classmethod\n    def {meth}(cls{', ' + ps if ps else ''}) -> '{ret[key]}': ...")
+                else:
+                    recv = kind.split(":")[1] if kind.startswith("recv:") else "self"  # nothing forces the receiver to be spelled self
+                    src.append(f"    def {meth}({recv}{', ' + ps if ps else ''}) -> '{ret[key]}': ...")
     src.append(f"def fn({params(model['fn'], 'fn')}) -> float: ...")
     exec("\n".join(src), ns)
     return ns
@@ -264,7 +274,9 @@ def render(ir, ns, mode, consts):
                 meth = ns["_alias"]
             func = getattr(ns[cls], meth)
             head = f"{_pr(R(recv))}.{meth}"
-            skip = 1
+            # the receiver parameter of a plain method is not a declared parameter of the call; static / class methods
+            # fetched from the class have none left
+            skip = 1 if inspect.isfunction(inspect.getattr_static(ns[cls], meth)) else 0
         else:
             _, pos, kw = ir
             func = ns["fn"]
@@ -344,7 +356,7 @@ def _depth_of_sites(ir, d=0):
 def check(case) -> Result:
     from func_adl import EventDataset, func_adl_callable
 
-    ns = build_model(case["model"], case.get("alias", "val"))
+    ns = build_model(case["model"], case.get("alias", "val"), case.get("kinds"))
     func_adl_callable()(ns["fn"])
 
     class DS(EventDataset):
@@ -386,6 +398,8 @@ def check(case) -> Result:
         r.labels.append("missing-required")
     if case.get("alias", "val") != "val":
         r.labels.append("method-named-like-a-stream-member")
+    for kd in sorted(set((case.get("kinds") or {}).values())):
+        r.labels.append(f"{kd.replace(':', '-')}-method-in-model")
     r.nontrivial = nontriv
 
     s = DS(ns["Evt"])
